@@ -13,7 +13,7 @@ ALLC = ['format_trashinfo', 'for_file', 'parse_path', 'parse_deletion_date']
 def config(tier):
     return {
         'level': 'exploration',
-        'cases': 900 if tier == 'quick' else 50000,
+        'cases': 2400 if tier == 'quick' else 50000,
         'budget_s': 50 if tier == 'quick' else 560,
         'floors': {'cases': 200, 'c_format_trashinfo': 30000,
                    'c_parse_path': 20000, 'c_for_file': 150,
